@@ -170,12 +170,18 @@ def implFits (a : Ast) (m : Module) (i : Impl) : Bool :=
 
 /-- the part of `implOk` that is about *names*: the switch variable is bound by a `let` in the emitted decoder, next to the
     buffer `v` -/
-def implHygiene (i : Impl) : Bool :=
+def implHygiene (m : Module) (i : Impl) : Bool :=
   match i.body with
-  | .union u => u.swVar != "v" && isIdent (safeName u.swVar)
+  | .union u =>
+    u.swVar != "v" && isIdent (safeName u.swVar) &&
+    -- `let <switch variable> = …`: a `let` binding cannot shadow a tuple struct (a typedef of the module) or a constant (E0530, finding K9)
+    !(m.types.any fun d => match d with
+        | .const n _ => n == safeName u.swVar
+        | .typedef n _ _ _ => n == safeName u.swVar
+        | _ => false)
   | _ => true
 
-def implOk (a : Ast) (m : Module) (i : Impl) : Bool := implFits a m i && implHygiene i
+def implOk (a : Ast) (m : Module) (i : Impl) : Bool := implFits a m i && implHygiene m i
 
 /-- does the module bind `d` (`d => return Err(..)`) / `c` (`c if c == ..`) in a pattern? -/
 def usesD (m : Module) : Bool :=
